@@ -431,7 +431,7 @@ theorem shapeOK_of_listsAreSlices (f : Fmt) (m : FlowMsg) (h : listsAreSlices f 
 
 /-- C13, JSON validity in its sharpest form: names that need no escaping, and every field that carries a list is
     declared (or known) as an array -/
-theorem formatJSON_valid' (f : Fmt) (m : FlowMsg) (hn : namesOK f = true) (hl : listsAreSlices f m = true) :
+theorem formatJSON_valid_sharp (f : Fmt) (m : FlowMsg) (hn : namesOK f = true) (hl : listsAreSlices f m = true) :
     valid (formatJSON f m) = true :=
   formatJSON_valid f m hn (shapeOK_of_listsAreSlices f m hl)
 
